@@ -202,7 +202,9 @@ PLAN = {
               "(Verus, unbounded loop invariant): read returns exactly mem[pos..pos+n), n = min(len, window left), never beyond the window; the dependency's read_exact on top of it; "
               "SubDeviceEeprom::start_at (window = length rounded up to a word), size (from word 0x3e), category (walk with termination measure); find_string's body from the count byte "
               "to the raw bytes as one fragment: None iff index >= count, otherwise exactly the bytes stored for that string (offset = sum of the preceding length bytes), refused "
-              "as too long only when really longer than the destination (a string of exactly the capacity is delivered)",
+              "as too long only when really longer than the destination (a string of exactly the capacity is delivered); category: Some(range) is the data window (start "
+              "right after the 2-word header, length from the header) of a header of the requested type; identity / mailbox_config / general decode exactly the 16 / 10 / 18 "
+              "bytes at word 0x0008 / word 0x0018 / the start of the General category",
         note="provider (hardware) contract assumed: read_chunk(w) returns mem[2w..2w+k], k in {4,8}; find_string's NUL removal / non-ASCII replacement (iterator adapters) and the "
              "derive-decoded items (sync managers, FMMUs, PDOs, general, identity: wire layouts = C19) are not under a functional contract",
     ),
